@@ -922,3 +922,11 @@ func specIntCode(v int64) byte {
 // A symbol table's answer for a text, as its (pure) observer reports it.
 func specFindID(t SymbolTable, s string) uint64 { id, _ := t.FindByName(s); return id }
 func specFindOK(t SymbolTable, s string) bool   { _, ok := t.FindByName(s); return ok }
+
+// specDeclaredImports: the imports a local symbol table declares (all but the system table).
+func specDeclaredImports(t *lst) int {
+	if len(t.imports) > 1 {
+		return len(t.imports) - 1
+	}
+	return 0
+}
